@@ -369,7 +369,25 @@ def judge(repo, fi, kind, names, new_fn=False):
         reads = _self_reads(f) - set(names)
         late = _stored_outside_constructors(repo, ci, None)
         hit = sorted(a for a in reads if a in late)
-        cached = [a for a in names if a in _self_reads(f)]
+        # a remembered value is one that can be read back before it is stored again: a read that comes first in this
+        # function, or a read anywhere else
+        cached = []
+        dead = []
+        for a in names:
+            first_store = min([n.lineno for n in ast.walk(f) if isinstance(n, ast.Attribute) and n.attr == a and isinstance(n.ctx, ast.Store)]
+                              + [n.lineno for n in ast.walk(f) if isinstance(n, ast.Call) and norm(n.func) in ('object.__setattr__', 'setattr') and len(n.args) > 1
+                                 and isinstance(n.args[1], ast.Constant) and n.args[1].value == a] + [10 ** 9])
+            early = [n for n in ast.walk(f) if isinstance(n, ast.Attribute) and n.attr == a and isinstance(n.ctx, ast.Load) and n.lineno < first_store]
+            early += [n for n in ast.walk(f) if isinstance(n, ast.Call) and norm(n.func) in ('hasattr', 'getattr') and len(n.args) > 1 and isinstance(n.args[1], ast.Constant)
+                      and n.args[1].value == a and n.lineno <= first_store]
+            elsewhere = [n for n in ast.walk(ci.module.tree) if isinstance(n, ast.Attribute) and n.attr == a and isinstance(n.ctx, ast.Load)
+                         and not (f.lineno <= n.lineno <= (f.end_lineno or f.lineno))]
+            if early or elsewhere:
+                cached.append(a)
+            else:
+                dead.append(a)
+        if not cached and dead:
+            return 'OK', 'stores %s, which nothing reads back before it is stored again' % ', '.join(dead)
         if cached and hit:
             return 'V', ('remembers %s on the object, computed from %s, which %s assigns after construction: the remembered value outlives the state it was computed from'
                          % (', '.join(cached), ', '.join(hit), late[hit[0]]))
